@@ -31,7 +31,8 @@ def counts(r, n):
         return str(r.choice([2, -2, 3, -3, n - 1, -(n - 1), n + 1, -(n + 1)])).encode()
     if c < 78:
         # (-1048576 is the last accepted negative count: a million-element reply, only asked of a missing key in directed())
-        return str(r.choice([2 ** 40, -(2 ** 40), 1048576, 1048577, -1048577, -1000])).encode()
+        # and -1048577 (refused by the repaired code, a million-element reply by a server without the bound) likewise
+        return str(r.choice([2 ** 40, -(2 ** 40), 1048576, 1048577, -1000, -(2 ** 62)])).encode()
     if c < 86:
         return str(r.choice([I64MAX, I64MIN, I64MAX - 1, I64MIN + 1])).encode()
     if c < 92:
@@ -216,7 +217,7 @@ def directed():
     case("srandmember_counts", ["sadd", "s", "a", "b", "c"], ["srandmember", "s", "9223372036854775807"], ["srandmember", "s", "0"],
          ["srandmember", "s", "1"], ["srandmember", "s", "-1"], ["srandmember", "s", "-7"], ["srandmember", "s", "5"],
          ["srandmember", "nokey", "2"], ["srandmember", "nokey"], ["srandmember", "nokey", "-1048576"], ["srandmember", "s", "-1048577"],
-         ["srandmember", "nokey", "-1048577"], ["srandmember", "s", "-1000"],
+         ["srandmember", "nokey", "-1048577"], ["srandmember", "s", "-1000"], ["srandmember", "s", "-1048576"],
          ["srandmember", "s", "-1099511627776"], ["srandmember", "s", "-9223372036854775808"], ["srandmember", "s", "-9223372036854775807"],
          ["srandmember", "nokey", "-1099511627776"], ["scard", "s"])
     case("member", ["member"], ["member", "list"], ["MEMBER", "x"], ["member", "list", "x"])
